@@ -63,3 +63,35 @@ Proof.
       destruct Blim as [Be|Bl]; [contradiction|exact Bl].
     + apply N.leb_le. unfold payload. rewrite map_length. rewrite <- Ps. lia.
 Qed.
+
+(* ---------- the whole submission part of a round ---------- *)
+(* The acceptor demands `round_maximal` at the completion check: no NOT_SUBMITTED job without blockers is left unless
+   the queue is full (or the submission is canceled).  The model of the submission loop of HpcSubmitter.run
+   (Batch.submit_round, tied to the real code by the C07 correspondence) has exactly this property
+   (BatchProofs.submit_round_maximal): so a session whose placed jobs and queue length are those the loop produced
+   passes the guard. *)
+Theorem round_maximal_of_submit_round sc (r0 r1 : session) depth groups ns oks idx rr :
+  sc_max_nodes sc = Some depth ->
+  NoDup (B.names ns) -> NoDup (map B.g_name groups) ->
+  (* the candidate list covers the submitter's view: every NOT_SUBMITTED job of the table is a candidate with its
+     remaining blockers, in a group that the round visits *)
+  (forall j, In j (all_jobs sc) -> r_st r0 j = NS ->
+     exists x, In x ns /\ B.jname x = j /\ B.jblocked x = r_bl r0 j /\ exists g, In g groups /\ B.jgroup x = B.g_name g) ->
+  B.submit_round depth (N.of_nat (length (r_out r0))) idx oks groups ns = B.ROk rr ->
+  (* the session after the loop: same table, the loop's jobs placed, the loop's queue length *)
+  r_st r1 = r_st r0 -> r_bl r1 = r_bl r0 ->
+  r_placed r1 = B.names (BP.subs_jobs (B.r_subs rr)) -> N.of_nat (length (r_out r1)) = B.r_out rr ->
+  round_maximal sc r1 = true.
+Proof.
+  intros Hd Hns Hg Hview Hs Est Ebl Epl Eout. unfold round_maximal.
+  destruct (BP.submit_round_maximal _ _ _ _ _ _ _ Hns Hg Hs) as [Hfull|Hall].
+  - (* queue full *)
+    unfold B.is_full, BatchGen.queue_full in Hfull. rewrite Hd. cbn [depth_ok]. rewrite Eout.
+    apply N.leb_le in Hfull. replace (B.r_out rr <? depth) with false by (symmetry; apply N.ltb_ge; exact Hfull).
+    cbn [negb]. rewrite orb_true_r. reflexivity.
+  - apply orb_true_iff. right. apply forallb_forall. intros j Hj.
+    destruct (r_st r1 j) eqn:E1; cbn [jstate_eqb andb negb orb]; try reflexivity.
+    destruct (r_bl r1 j) as [|d t] eqn:E2; cbn [negb orb]; [|reflexivity].
+    rewrite Est in E1. rewrite Ebl in E2. destruct (Hview j Hj E1) as (x & Hx & En & Eb & g & Hgi & Egx).
+    apply memN_In. rewrite Epl, <- En. apply (Hall g x Hgi Hx Egx). rewrite Eb. exact E2.
+Qed.
